@@ -177,6 +177,7 @@ func CheckC01(c *Ctx) {
 	run.Floor("intrinsic_joins", 6)
 	c.checkFormulas()
 	c.defaultsWiring("defaults-wiring", "trend", "momentum", "volatility", "volume")
+	c.documentedAveragesRule("formula/default-average")
 	c.constructorParameters("defaults-wiring", "trend", "momentum", "volatility", "volume")
 	c.derivedPeriods()
 	c.trimaPeriods()
